@@ -282,12 +282,25 @@ func runHistory(t *testing.T, r *vh.Run, w *world, ck string, c conf, nops int) 
 	var pnc bool
 	var pv, pw string
 	finished := make(chan struct{})
+	var opsDone atomic.Int64 // operations of this history completed so far: the watchdog's notion of progress
 	go func() {
-		select {
-		case <-finished:
-		case <-time.After(120 * time.Second):
+		last, lastChange := int64(-1), time.Now()
+		for {
+			select {
+			case <-finished:
+				return
+			case <-time.After(5 * time.Second):
+			}
+			if n := opsDone.Load(); n != last {
+				last, lastChange = n, time.Now()
+				continue
+			}
+			if time.Since(lastChange) < 300*time.Second {
+				continue
+			}
+			// no operation has completed for five minutes of real time (a loaded machine makes operations slow, not that slow):
 			// a stuck bubble cannot be cancelled: report and leave the process (the driver reports inconclusive)
-			r.Inconclusive("history " + ck + " did not finish within 120 s of real time (stuck virtual clock?)")
+			r.Inconclusive("history " + ck + " completed no operation within 300 s of real time (stuck virtual clock?)")
 			r.Flush()
 			buf := make([]byte, 1<<20)
 			n := runtime.Stack(buf, true)
@@ -465,6 +478,7 @@ func runHistory(t *testing.T, r *vh.Run, w *world, ck string, c conf, nops int) 
 					loopPoisoned = false
 				}
 				hist = append(hist, rec)
+				opsDone.Add(1)
 			}
 		})
 		close(stop)
